@@ -351,7 +351,8 @@ def check(pid, tier="quick", seed=None, jobs=None, count=None, write_evidence=Tr
             "wall_s": round(wall, 2),
             "violations": n_viol,
             "coverage": {
-                "evaluations": evaluations,
+                "evaluations": stats.get(getattr(mod, "EVALUATIONS_COUNTER", ""), evaluations) if getattr(mod, "EVALUATIONS_COUNTER", None) else evaluations,
+                "runs": evaluations,
                 "distinct_nontrivial": len(abstract),
                 "rule": mod.RULE,
                 "samples": samples[:3] or [r.get("case") for r in records[:1]],
